@@ -13,6 +13,7 @@ import ChumskyModel.Proofs.Lemmas.Top
 import ChumskyModel.Proofs.Lemmas.Guarded
 import ChumskyModel.Proofs.Lemmas.PrattTotal
 import ChumskyModel.Proofs.Lemmas.PrattTerm
+import ChumskyModel.Proofs.Lemmas.ExtTotal
 set_option linter.unusedSimpArgs false
 namespace Chumsky
 
@@ -128,6 +129,21 @@ theorem c20_recursive_pratt_failure_leaves_pending_error (x : XEnv) (n : Nat) (e
     (st st' : St) (hm : env.memoOn = false) (h : runX x n env m g st = .fail st') : st'.alt.isSome = true :=
   runX_fail_alt x n env m g st st' hm h
 
+/-- … and for grammars with any number of extensions containing each other — `a.nested_in(b)` at any position, Pratt
+    expressions inside nested parses inside Pratt atoms (`EEnv`): `NestedIn::go` and `pratt_go` add no panic site (the model's
+    "`b` did not yield a group" code is the undefined-reference site; the Rust types rule it out), and a failing parse leaves
+    a pending error -/
+theorem c20_extensions_panic_sites (e : EEnv) (n : Nat) (env : Env) (m : Mode) (g : G) (st : St)
+    (hm : env.memoOn = false) {w : Nat} (h : runE e n env m g st = .panic w) :
+    w = pTodo ∨ w = pNoProgress ∨ w = pIllTyped ∨ w = pUndefined :=
+  runE_panic_sites e n env m g st hm h
+
+theorem c20_extensions_failure_leaves_pending_error (e : EEnv) (n : Nat) (env : Env) (m : Mode) (g : G)
+    (st st' : St) (hm : env.memoOn = false) (h : runE e n env m g st = .fail st') : st'.alt.isSome = true :=
+  runE_fail_alt e n env m g st st' hm h
+
+#print axioms c20_extensions_panic_sites
+#print axioms c20_extensions_failure_leaves_pending_error
 #print axioms c20_unwraps_never_fire
 #print axioms c20_pratt_panic_sites
 #print axioms c20_pratt_failure_leaves_pending_error
